@@ -14,6 +14,7 @@ import (
 	"github.com/nspcc-dev/neo-go/pkg/core"
 	"github.com/nspcc-dev/neo-go/pkg/core/block"
 	"github.com/nspcc-dev/neo-go/pkg/core/native/nativehashes"
+	"github.com/nspcc-dev/neo-go/pkg/core/native/nativeids"
 	"github.com/nspcc-dev/neo-go/pkg/core/state"
 	"github.com/nspcc-dev/neo-go/pkg/core/storage"
 	"github.com/nspcc-dev/neo-go/pkg/core/transaction"
@@ -127,15 +128,16 @@ var DefaultWeights = Weights{GasTransfer: 10, NeoTransfer: 8, Vote: 10, Candidat
 
 // ProducerConfig configures a history producer.
 type ProducerConfig struct {
-	Single  bool
-	Proto   func(*config.Blockchain) // protocol-level settings every node of the farm shares
-	Users   int
-	W       Weights
-	MaxTx   int  // max transactions per block (default 4)
-	Observe bool // record an Observation per height
-	Keep    bool // keep storage dumps in observations
-	Stream  uint64
-	Store   storage.Store
+	Single         bool
+	Proto          func(*config.Blockchain) // protocol-level settings every node of the farm shares
+	Users          int
+	W              Weights
+	MaxTx          int  // max transactions per block (default 4)
+	Observe        bool // record an Observation per height
+	Keep           bool // keep storage dumps in observations
+	Stream         uint64
+	Store          storage.Store
+	TolerateReject bool
 }
 
 // Producer builds a chain and records it as serialized blocks.
@@ -156,6 +158,8 @@ type Producer struct {
 	TxKinds                                 map[util.Uint256]string
 	KindLog                                 [][]string // per block: kind/result of each tx
 	OnBlock                                 func(p *Producer, b *block.Block)
+	Rejected                                error
+	TolerateReject                          bool
 	nonce                                   uint32
 	closeOnce                               sync.Once
 	pending                                 map[util.Uint256]func()
@@ -200,7 +204,7 @@ func NewProducer(t testing.TB, cfg ProducerConfig) *Producer {
 	if err != nil {
 		t.Fatalf("producer: %v", err)
 	}
-	p := &Producer{T: t, Cfg: cfg, BC: bc, Val: val, Com: com, R: rng.New(cfg.Stream), Kinds: map[string]int{}, TxKinds: map[util.Uint256]string{}, pending: map[util.Uint256]func(){}}
+	p := &Producer{T: t, Cfg: cfg, TolerateReject: cfg.TolerateReject, BC: bc, Val: val, Com: com, R: rng.New(cfg.Stream), Kinds: map[string]int{}, TxKinds: map[util.Uint256]string{}, pending: map[util.Uint256]func(){}}
 	t.Cleanup(p.Close)
 	p.E = neotest.NewExecutor(t, bc, val, com)
 	p.GasH, p.NeoH, p.PolH, p.MgmtH, p.RoleH, p.NotaryH = nativehashes.GasToken, nativehashes.NeoToken, nativehashes.PolicyContract, nativehashes.ContractManagement, nativehashes.RoleManagement, nativehashes.Notary
@@ -304,7 +308,13 @@ func (p *Producer) AddBlock(txs ...*transaction.Transaction) *block.Block {
 		for _, tx := range txs {
 			ks = append(ks, p.TxKinds[tx.Hash()])
 		}
-		p.T.Fatalf("producer block %d rejected: %v (txs %v)", b.Index, err, ks)
+		// The block was built from the node's own answers (fees, validators,
+		// state root); its rejection is reported by the checks as a violation.
+		p.Rejected = fmt.Errorf("producer block %d rejected by its own node: %w (txs %v)", b.Index, err, ks)
+		if !p.TolerateReject {
+			p.T.Fatalf("%v", p.Rejected)
+		}
+		return nil
 	}
 	p.Raw = append(p.Raw, EncodeBlock(b))
 	p.Blocks = append(p.Blocks, b)
@@ -816,6 +826,81 @@ func (p *Producer) opPayment() *transaction.Transaction {
 		tok, kind, amt = p.NeoH, "pay-neo-to-contract", int64(1+p.R.Intn(10))
 	}
 	return p.Call(kind, []neotest.Signer{u.S}, tok, "transfer", u.Hash(), d.Hash, amt, data)
+}
+
+// OpVote, OpNeoTransfer and OpCandidate expose single operations.
+func (p *Producer) OpVote() *transaction.Transaction        { return p.opVote() }
+func (p *Producer) OpNeoTransfer() *transaction.Transaction { return p.opNeoTransfer() }
+func (p *Producer) OpCandidate() *transaction.Transaction   { return p.opCandidate() }
+
+// Churn is a scripted sequence over several blocks: a candidate loses its
+// only voters, is unregistered (its record is dropped), registers again, is
+// voted again, and after an epoch boundary the voter moves NEO.
+type Churn struct {
+	p      *Producer
+	c      *User
+	voters []*User
+	step   int
+	waitTo int
+}
+
+// NewChurn picks a candidate with known voters (nil if none fits).
+func (p *Producer) NewChurn() *Churn {
+	cs := p.candidates()
+	if len(cs) == 0 {
+		return nil
+	}
+	c := cs[p.R.Intn(len(cs))]
+	ch := &Churn{p: p, c: c}
+	for _, u := range p.Users {
+		st := p.BC.GetStorageItem(nativeids.NeoToken, append([]byte{20}, u.Hash().BytesBE()...))
+		if st == nil || u.Blocked {
+			continue
+		}
+		nb, err := state.NEOBalanceFromBytes(st)
+		if err == nil && nb.VoteTo != nil && nb.VoteTo.Equal(c.Acc.PublicKey()) {
+			ch.voters = append(ch.voters, u)
+		}
+	}
+	if len(ch.voters) == 0 || len(ch.voters) > 2 || c.Blocked {
+		return nil
+	}
+	return ch
+}
+
+// Next returns the transaction of the script for block number next.
+func (ch *Churn) Next(next int) (*transaction.Transaction, bool) {
+	p := ch.p
+	defer func() { ch.step++ }()
+	nv := len(ch.voters)
+	if ch.c.Blocked {
+		return nil, true // a blocked account cannot sign: abandon the script
+	}
+	for _, v := range ch.voters {
+		if v.Blocked {
+			return nil, true
+		}
+	}
+	switch {
+	case ch.step < nv:
+		v := ch.voters[ch.step]
+		return p.Call("churn-unvote", []neotest.Signer{v.S}, p.NeoH, "vote", v.Hash(), nil), false
+	case ch.step == nv:
+		return p.Call("churn-unregister", []neotest.Signer{ch.c.S}, p.NeoH, "unregisterCandidate", ch.c.Acc.PublicKey().Bytes()), false
+	case ch.step == nv+1:
+		return p.Call("churn-register", []neotest.Signer{ch.c.S}, p.NeoH, "registerCandidate", ch.c.Acc.PublicKey().Bytes()), false
+	case ch.step < 2*nv+2:
+		v := ch.voters[ch.step-nv-2]
+		return p.Call("churn-vote", []neotest.Signer{v.S}, p.NeoH, "vote", v.Hash(), ch.c.Acc.PublicKey().Bytes()), false
+	case ch.step == 2*nv+2:
+		ch.waitTo = next + 2*Epoch
+		return nil, false
+	case next < ch.waitTo:
+		return nil, false
+	default:
+		v := ch.voters[0]
+		return p.Call("churn-claim", []neotest.Signer{v.S}, p.NeoH, "transfer", v.Hash(), v.Hash(), int64(0), nil), true
+	}
 }
 
 // KindsSummary returns the sorted kind:result counters.
